@@ -140,6 +140,13 @@ func c18Exec(x *Ctx) {
 		}
 		return nil
 	})
+	if c.Seed%5 == 1 {
+		// the server is told the root by a path that leads through a symbolic link
+		if os.Symlink("outer", filepath.Join(u.Base, "lnk")) == nil {
+			u.Ufs.Root = filepath.Join(u.Base, "lnk", "root")
+			x.Probe("export-root-spelled-through-a-symlink")
+		}
+	}
 	if c.Seed%5 == 0 {
 		// the server is told to export "." (its working directory is the tree)
 		if wd, err := os.Getwd(); err == nil && os.Chdir(u.Root) == nil {
@@ -310,6 +317,35 @@ func c18Exec(x *Ctx) {
 						// the exported directory itself is gone from its place
 						x.Violate("x4-outside-modified", "a Twstat renaming the fid of the exported root to %q moved the exported directory itself", nn)
 						return
+					}
+				}
+			}
+			// a directory two levels down is renamed, through its own fid, to the top of the tree; from that fid
+			// '..' may now be taken once, not twice
+			if aname == "" && r.Pct(25) {
+				if cr := call(&Msg{Type: Twalk, Fid: 0, Newfid: 11, Wname: []string{"sub", "deep"}}); cr != nil && cr.M != nil && cr.M.Type == Rwalk && len(cr.M.Wqid) == 2 {
+					nn := []string{"/moved-deep", "../../moved-deep"}[r.Intn(2)]
+					rr := call(&Msg{Type: Twstat, Fid: 11, Stat: nullStat(func(s *Stat) { s.Name = nn })})
+					if wr := call(&Msg{Type: Twalk, Fid: 11, Newfid: 12, Wname: []string{"..", "..", "canary.txt"}}); wr != nil && wr.M != nil && wr.M.Type == Rwalk {
+						for _, q := range wr.M.Wqid {
+							checkQid(q, fmt.Sprintf("rename of sub/deep to %q through its fid, then walk '..', '..', 'canary.txt' from it", nn))
+						}
+						if len(wr.M.Wqid) == 3 {
+							if or := call(&Msg{Type: Topen, Fid: 12, Mode: 0}); or != nil && or.M != nil && or.M.Type == Ropen {
+								if rd := call(&Msg{Type: Tread, Fid: 12, Offset: 0, Count: 200}); rd != nil && rd.M != nil && rd.M.Type == Rread && bytes.Contains(rd.M.Data, []byte(canaryText)) {
+									x.Violate("x1-read-outside", "after renaming a directory to a shallower place through its fid, '..' twice from that fid led outside the tree")
+								}
+							}
+							call(&Msg{Type: Tclunk, Fid: 12})
+						}
+					}
+					call(&Msg{Type: Tclunk, Fid: 11})
+					if rr != nil && rr.M != nil && rr.M.Type == Rwstat {
+						x.Probe("directory-moved-up-through-its-fid")
+					}
+					// put things back for the attacks that follow
+					if _, err := os.Lstat(filepath.Join(u.Root, "moved-deep")); err == nil {
+						os.Rename(filepath.Join(u.Root, "moved-deep"), filepath.Join(u.Root, "sub", "deep"))
 					}
 				}
 			}
